@@ -121,6 +121,38 @@ Proof.
     split; [lia|]. apply (Hcols row (nth_error_In _ _ Hr2) (c, v)). exact Hc.
 Qed.
 
+Lemma read_mm_entry_den0 r c v i j :
+  den_ents (read_mm_entry F big parse false (S r, S c, show v)) i j = at_pos r c i j (dropW (rt v)).
+Proof.
+  unfold read_mm_entry. cbn [fst snd andb]. rewrite app_nil_r. simpl. rewrite !Nat.sub_0_r. apply den_ents_addv.
+Qed.
+
+(* ------------------------------------------------------------------ write_par_mm ; read_mm *)
+(* the operator of one block of rows held by a process (global column indices, first = its first global row) *)
+Definition block_den (first : nat) (rows : list (list (nat * F))) (h : F -> F) (i j : nat) : F :=
+  sumF (map (fun ir => sumF (map (fun p => at_pos (first + fst ir) (fst p) i j (h (snd p))) (snd ir))) (indexed rows)).
+Definition par_den (ranks : list (nat * list (list (nat * F)) * list (list (nat * F)))) (h : F -> F) (i j : nat) : F :=
+  sumF (map (fun r => add (block_den (fst (fst r)) (snd (fst r)) h i j) (block_den (fst (fst r)) (snd r) h i j)) ranks).
+
+Theorem read_write_par_mm nr nc ranks :
+  exists A, read_mm_coo F big parse (write_par_mm F show nr nc ranks) = Some A /\
+            coo_nr A = nr /\ coo_nc A = nc /\
+            forall i j, denCoo A i j = par_den ranks (fun v => dropW (rt v)) i j.
+Proof.
+  unfold read_mm_coo. cbn [mm_ents mm_nz mm_nr mm_nc mm_sym write_par_mm].
+  rewrite Nat.ltb_irrefl, firstn_all. eexists. split; [reflexivity|]. split; [reflexivity|]. split; [reflexivity|].
+  intros i j. rewrite den_coo_ents. cbn [coo_ents]. unfold par_den.
+  rewrite flat_map_flat_map, den_ents_flat_map. apply sumf_ext_in. intros [[first on] off] _. cbn [fst snd].
+  rewrite flat_map_app, den_ents_app.
+  assert (B : forall rows, den_ents (flat_map (read_mm_entry F big parse false)
+                 (flat_map (fun ir => map (fun p => (S (first + fst ir), S (fst p), show (snd p))) (snd ir)) (indexed rows))) i j
+              = block_den first rows (fun v => dropW (rt v)) i j).
+  { intros rows. unfold block_den. rewrite flat_map_flat_map, den_ents_flat_map.
+    apply sumf_ext_in. intros [r row] _. cbn [fst snd]. rewrite flat_map_map, den_ents_flat_map.
+    apply sumf_ext_in. intros [c v] _. cbn [fst snd]. rewrite read_mm_entry_den0. reflexivity. }
+  rewrite !B. reflexivity.
+Qed.
+
 (* ------------------------------------------------------------------ partitions *)
 Definition row_win (w : nat * nat * nat * nat) : nat * nat := (fst (fst (fst w)), snd (fst (fst w))).
 Definition col_win (w : nat * nat * nat * nat) : nat * nat := (snd (fst w), snd w).
@@ -316,6 +348,27 @@ Proof.
     unfold addv in Hx. destruct (big _); [|contradiction]. destruct Hx as [<-|[]]. unfold erow, ecol; simpl. lia.
 Qed.
 
+(* at the level of what read_mm returns (CSR) *)
+Theorem read_par_mm_eq_read_mm_csr (f : mmfile F) parts :
+  mm_wf f -> rows_tile parts (mm_nr f) ->
+  (mm_sym f = true -> mm_nc f = mm_nr f /\ square_parts parts) ->
+  length (mm_ents f) >= mm_nz f ->
+  exists B, read_mm F big parse f = Some B /\ csr_nr B = mm_nr f /\ csr_nc B = mm_nc f /\
+    forall i j, denCoo (read_par_mm F big parse f parts) i j = denCsr B i j /\
+                denCsr B i j = den_ents (mm_expand F big parse f) i j.
+Proof.
+  intros Hwf Htile Hsq Hlen.
+  destruct (read_mm_coo F big parse f) as [A|] eqn:EA.
+  - exists (coo_to_csr A). unfold read_mm. rewrite EA. split; [reflexivity|].
+    destruct (read_mm_expands f A Hwf EA) as [Hr [Hc Hd]].
+    split; [exact Hr|]. split; [exact Hc|]. intros i j.
+    assert (W : coo_wf A) by (apply (read_mm_coo_wf f A Hwf); [intros Hs; apply (Hsq Hs)|exact EA]).
+    rewrite den_coo_to_csr by exact W. split; [|apply Hd].
+    apply (read_par_mm_eq_read_mm f parts A); assumption.
+  - unfold read_mm_coo in EA. replace (length (mm_ents f) <? mm_nz f) with false in EA; [discriminate|].
+    symmetry. apply Nat.ltb_ge. exact Hlen.
+Qed.
+
 (* ------------------------------------------------------------------ PETSc binary *)
 Lemma nsum_app a b : nsum (a ++ b) = nsum a + nsum b.
 Proof. induction a; simpl; [reflexivity|rewrite IHa; lia]. Qed.
@@ -394,8 +447,9 @@ Proof.
   pose proof (prefix_nnz blocks 0 k w Hk) as P. simpl firstn in P. simpl nsum in P. rewrite Nat.add_0_r in P.
   rewrite P. destruct Hwf as [Hl [Hs [Hc Hv]]].
   unfold readMatrix. cbn [csr_rows].
-  rewrite (firstn_all2 (p_rowsz f)) by lia. rewrite (firstn_all2 (p_cols f)) by lia. rewrite (firstn_all2 (p_vals f)) by lia.
-  rewrite <- combine_skipn, <- combine_firstn. unfold par_row_sizes. apply split_rows_window.
+  rewrite (@firstn_all2 _ (p_nr f) (p_rowsz f)) by lia. rewrite (@firstn_all2 _ (p_nnz f) (p_cols f)) by lia.
+  rewrite (@firstn_all2 _ (p_nnz f) (p_vals f)) by lia.
+  rewrite <- combine_firstn, <- combine_skipn. unfold par_row_sizes. apply split_rows_window.
 Qed.
 End Petsc.
 
@@ -421,12 +475,15 @@ Proof.
   intros Hwf Hb. unfold readParMatrix_gathered, readParMatrix.
   rewrite (map_ext_in _ (fun rw => Some (firstn (snd (snd rw)) (skipn (fst (snd rw)) (csr_rows (readMatrix F f)))))).
   - rewrite (concat_opt_some (fun rw : nat * (nat * nat) => firstn (snd (snd rw)) (skipn (fst (snd rw)) (csr_rows (readMatrix F f))))).
-    f_equal. unfold readMatrix at 3. f_equal.
-    rewrite <- (map_map snd (fun w => firstn (snd w) (skipn (fst w) (csr_rows (readMatrix F f))))).
-    assert (E : map snd (indexed (windows 0 blocks)) = windows 0 blocks).
-    { unfold indexed. generalize 0 at 1. induction (windows 0 blocks) as [|a l IH]; intros s; simpl; [reflexivity|]. rewrite IH. reflexivity. }
-    rewrite E, concat_windows'. simpl skipn. apply firstn_all2.
-    unfold readMatrix. cbn [csr_rows]. rewrite split_rows_length, firstn_length. destruct Hwf as [Hl _]. lia.
+    f_equal.
+    assert (R : concat (map (fun rw : nat * (nat * nat) => firstn (snd (snd rw)) (skipn (fst (snd rw)) (csr_rows (readMatrix F f))))
+                            (indexed (windows 0 blocks))) = csr_rows (readMatrix F f)).
+    { rewrite <- (map_map snd (fun w => firstn (snd w) (skipn (fst w) (csr_rows (readMatrix F f))))).
+      assert (E : map snd (indexed (windows 0 blocks)) = windows 0 blocks).
+      { unfold indexed. generalize 0 at 1. induction (windows 0 blocks) as [|a l IH]; intros s; simpl; [reflexivity|]. rewrite IH. reflexivity. }
+      rewrite E, concat_windows'. simpl skipn. apply firstn_all2.
+      unfold readMatrix. cbn [csr_rows]. rewrite split_rows_length, firstn_length. destruct Hwf as [Hl _]. lia. }
+    rewrite R. reflexivity.
   - intros [k w] Hin. cbn [fst snd]. apply indexed_from_in in Hin. destruct Hin as [_ Hn]. rewrite Nat.sub_0_r in Hn.
     apply readPar_rank_rows; assumption.
 Qed.
